@@ -6,9 +6,9 @@ From PV Require Import Base.Prelude Base.Text Model.DHCP Model.DHCPShow Spec.DHC
 Open Scope list_scope.
 Open Scope N_scope.
 
-Theorem c11_fails_nil : forall c h t, In t (trace c (init c) h) -> c11_fails c t = [].
+Theorem c11_fails_nil : forall c h t, sub_ok c -> In t (trace c (init c) h) -> c11_fails c t = [].
 Proof.
-  intros c h t Hin. unfold c11_fails.
+  intros c h t Hok Hin. unfold c11_fails.
   destruct (trace_step c h (init c) t (inv_init c) Hin) as [HI E].
   destruct (step_ok c _ _ _ _ _ HI E) as [HI' _].
   assert (U : uniqb (tbl (t_post t)) = true) by (apply uniqb_spec; apply (inv_uniq c); exact HI').
@@ -17,7 +17,7 @@ Proof.
   destruct (t_reply t) as [r|] eqn:Hr; auto.
   destruct (is_lease_reply r) eqn:L; auto.
   pose proof (not_acked_elsewhere_all c h t m r Hin Hm Hr) as A.
-  pose proof (not_reserved_all c h t m r Hin Hm Hr) as R.
+  pose proof (not_reserved_all c h t m r Hok Hin Hm Hr) as R.
   unfold c11_not_acked_elsewhere in A. unfold c11_not_reserved, reserved in R. rewrite L in A, R. simpl in A, R.
   apply negb_true_iff in A, R.
   apply orb_false_iff in R as [R R6]. apply orb_false_iff in R as [R R5]. apply orb_false_iff in R as [R R4].
@@ -30,7 +30,7 @@ Theorem c12_fails_nil : forall c h t,
 Proof.
   intros c h t Hc Hin. unfold c12_fails.
   destruct (op_msg (t_op t)) as [m|] eqn:Hm; auto.
-  pose proof (no_ack_when_all c h t m Hin Hm) as NA. rewrite NA. rewrite andb_false_r.
+  pose proof (no_ack_when_all c h t m (proj1 Hc) Hin Hm) as NA. rewrite NA. rewrite andb_false_r.
   destruct (t_reply t) as [r|] eqn:Hr; auto. rewrite app_nil_r.
   destruct (is_lease_reply r) eqn:L; auto.
   pose proof (subnet_all c h t m r Hc Hin Hm Hr) as S.
